@@ -36,6 +36,8 @@ CONSTS = """  Impl = "%(impl)s"
   Prices = %(prices)s
   Modes = {"fresh", "catchup"}
   Kinds = %(kinds)s
+  ErrKinds = %(errkinds)s
+  NfKinds = %(nfkinds)s
   TimeoutCfgs = %(tcfgs)s
 """
 ALLKINDS = '{"closed", "lost", "won", "other", "xclosed", "created", "xowner", "xownerp", "xdseq"}'
@@ -46,7 +48,7 @@ QUICKKINDS = '{"closed", "lost", "won", "other", "xclosed", "created", "xowner"}
 
 def cfg_text(spec, invariants, props=(), **kw):
     d = dict(impl="intended", quiet="FALSE", record="FALSE", maxfail=1, maxign=1, maxq=2, prices="{1, 46, 47}",
-             kinds='{"closed", "lost", "won", "other"}', tcfgs="{TRUE, FALSE}")
+             kinds='{"closed", "lost", "won", "other"}', tcfgs="{TRUE, FALSE}", errkinds="{1, 2, 3, 4}", nfkinds="{1}")
     d.update(kw)
     t = "SPECIFICATION %s\nCONSTANTS\n%s" % (spec, CONSTS % d)
     t += "INVARIANTS %s\n" % " ".join(invariants)
@@ -422,9 +424,9 @@ def run(pid, tier, seed, replay):
     free_kw = dict(maxfail=2, maxign=2, maxq=2, prices="{1, 45, 46, 47}") if thorough else {}
     quiet_kw = dict(quiet="TRUE", record="TRUE", maxq=1, kinds=ALLKINDS if thorough else QUICKKINDS, tcfgs="{TRUE}")
     if thorough:
-        quiet_kw.update(maxfail=2, maxign=2, prices="{1, 45, 46, 47}")
+        quiet_kw.update(maxfail=2, maxign=2, prices="{1, 45, 46, 47}", nfkinds="{1, 2, 3}")
     sim_kw = dict(quiet="TRUE", record="TRUE", maxq=1, kinds=ALLKINDS, tcfgs="{TRUE, FALSE}", maxfail=4, maxign=3,
-                  prices="{1, 23, 45, 46, 47, 100}")
+                  prices="{1, 23, 45, 46, 47, 100}", nfkinds="{1, 2, 3}")
     jobs = {
         "free": lambda: vlib.tlc(SPEC, "MCBidEngine", "g.cfg", timeout=1500 if thorough else 600, extra_files={
             "g.cfg": (cfg_text("FairSpec", SAFETY, ["ShutdownTerminates", "TimeoutTerminates"], **free_kw) if thorough
